@@ -159,14 +159,14 @@ func (cm *connManager) handleNewTCPConn(regManager *cj.RegistrationManager, clie
 	var asn uint = 0
 	var cc string
 	var err error
-	cc, err = regManager.GeoIP.CC(remoteIP)
+	cc, err = regManager.GetGeoIP().CC(remoteIP)
 	if err != nil {
 		logger.Errorln("Failed to get CC:", generalizeErr(err))
 		return
 	}
 	if cc != "unk" {
 		// logger.Infoln("CC not unk:", cc, "ASN:", asn) // TESTING
-		asn, err = regManager.GeoIP.ASN(remoteIP)
+		asn, err = regManager.GetGeoIP().ASN(remoteIP)
 		if err != nil {
 			logger.Errorln("Failed to get ASN:", generalizeErr(err))
 			return
